@@ -61,9 +61,14 @@ def check(run: Run) -> None:
     ok = run.prove("Props/C08.v")
     items, explained, failures = [], set(), 0
     n_cuts = n_faults = n_residue = 0
-    for i in range(1500 if thorough else 300):
-        c = F.gen_case(rng, depth=2, unions=(i % 5 == 0), max_fields=5, eof=False)
-        data = F.random_data(rng, rng.choice([6, 12, 20, 30, 40]))
+    # aligned unions (their size is rounded up: the cut can fall inside a member or inside the tail padding), alone, nested and in arrays
+    FIXED = [Case(t, align=True, compiled=comp, endian=e) for comp in (False, True) for e in ("<", ">") for t in (
+        "union main { uint32 a; uint16 b; };", "union main { uint64 q; char tag[10]; };", "union U { uint32 a; uint8 b[5]; };\nstruct main { uint8 k; U u; uint16 t; };",
+        "union U { uint64 q; uint16 w[5]; };\nstruct main { U us[2]; uint8 t; };", "union main { struct { uint8 x; uint32 y; } s; uint16 h[5]; };")]
+    n_gen = 1500 if thorough else 300
+    for i in range(n_gen + len(FIXED)):
+        c = FIXED[i - n_gen] if i >= n_gen else F.gen_case(rng, depth=2, unions=(i % 5 == 0), max_fields=5, eof=False)
+        data = bytes(rng.randrange(1, 256) for _ in range(40)) if i >= n_gen else F.random_data(rng, rng.choice([6, 12, 20, 30, 40]))
         try:
             cs = c.load()
             T = cs.resolve("main")
